@@ -8,6 +8,9 @@
 
 use crate::gen::{self, ResDef};
 use crate::mon::common::{ask, build_engine_with, diff, verdict_json};
+use adblock::blocker::{Blocker, BlockerOptions};
+use adblock::lists::parse_filters;
+use adblock::resources::ResourceStorage;
 use crate::oracle::resources::ResModel;
 use crate::oracle::scan::Scan;
 use crate::report::{guarded, Ctx};
@@ -168,6 +171,16 @@ pub fn run(ctx: &mut Ctx) {
             let optimize = r.chance(1, 2);
             let opts = ParseOptions::default();
             let e = build_engine_with(&rules, opts, true, optimize, &store);
+            // the same rules added one at a time to a live Blocker (duplicates are refused there,
+            // which changes nothing for the verdict)
+            let mut blocker = Blocker::new(vec![], &BlockerOptions { enable_optimizations: false });
+            for line in &rules {
+                let (mut nf, _) = parse_filters([line], true, opts);
+                if let Some(f) = nf.pop() {
+                    let _ = blocker.add_filter(f);
+                }
+            }
+            let storage = ResourceStorage::from_resources(store.iter().map(|d| d.to_resource()));
             let mut scan = Scan::new(&rules, opts);
             let effective = effective_store(&store);
             let res = ResModel { defs: &effective };
@@ -188,11 +201,20 @@ pub fn run(ctx: &mut Ctx) {
                 let a = ask(&e, &rq);
                 let v = scan.verdict(&rq, &url, &tags, &res);
                 let d: Vec<&str> = diff(&a, &v).into_iter().filter(|f| matches!(*f, "redirect" | "matched" | "important" | "exception")).collect();
+                let a2 = crate::mon::c05::blocker_answer(&blocker, &storage, &rq);
+                let d2: Vec<&str> = diff(&a2, &v).into_iter().filter(|f| matches!(*f, "redirect" | "matched" | "important" | "exception")).collect();
                 let nt = v.redirect_candidates >= 2 || (v.redirect_candidates >= 1 && v.redirect_exceptions >= 1);
                 let h = fnv(&format!("{:?}|{:?}|{}|{}|{}", rules, store.iter().map(|s| (&s.name, &s.kind, s.perm, &s.aliases)).collect::<Vec<_>>(), url, source, ty));
                 let detail = json!({"rules": rules, "resources": store.iter().map(|s| json!({"name": s.name, "aliases": s.aliases, "kind": s.kind, "permission": s.perm})).collect::<Vec<_>>(),
                     "url": url, "source": source, "type": ty, "optimize": optimize, "engine": a.to_json(), "oracle": verdict_json(&v),
                     "redirect_candidates": v.redirect_candidates, "matching_redirect_exceptions": v.redirect_exceptions});
+                if !d2.is_empty() && d.is_empty() {
+                    let mut det = detail.clone();
+                    if let Some(o) = det.as_object_mut() {
+                        o.insert("blocker_built_by_add_filter".into(), a2.to_json());
+                    }
+                    out.push((format!("incremental:{}", d2.join("+")), nt, h, det, a2.redirect.is_some()));
+                }
                 out.push((d.join("+"), nt, h, detail, a.redirect.is_some()));
             }
             out
